@@ -236,6 +236,17 @@ HELPERS = Stage(
     nontrivial=lambda e: True,
 )
 
+# the logger package and the two messages of the batch encoder (outside the listed properties: tags X.logger.*, drift only)
+LOGGER = Stage(
+    family="logger",
+    reset_ev="Start",
+    mc={"quick": [("MC_Logger.tla", "MC_Logger.cfg", "pass"), ("MC_Logger.tla", "MC_Logger_neg.cfg", "fail")],
+        "thorough": [("MC_Logger.tla", "MC_Logger.cfg", "pass"), ("MC_Logger.tla", "MC_Logger_neg.cfg", "fail")]},
+    parts={"quick": [("", 1)], "thorough": [("", 4)]},
+    trace=("Trace_Logger.tla", "Trace_Logger.cfg"),
+    nontrivial=lambda e: e.get("ev") in ("Log", "Build"),
+)
+
 CHECKS = {
     "C13": dict(
         stages=[CONC],
@@ -282,7 +293,7 @@ CHECKS = {
         assumptions=["deep snapshots through the reflection projector", "scripted ConnReader compacts its buffer on arrival like bufio"],
     ),
     "C09": dict(
-        stages=[BATCH, SPLIT_BATCH, BUILDER],
+        stages=[BATCH, SPLIT_BATCH, BUILDER, LOGGER],
         technique="TLA+ state machine of Build (candidate set, per-candidate goroutines, filter, UCS-2 fallback, unstable sort as "
                   "'any minimal element first') (Batch.tla): TLC exhaustive + TLC validation of the real sorter on every "
                   "permutation and of repeated real Build calls; the builder object across requests as a second state machine "
